@@ -48,7 +48,8 @@ def problems(poly):
             if tuple(coef.shape) != shape:
                 out.append(f"coefficient {i} has shape {coef.shape}, array shape {shape}")
                 break
-            if coef.dtype != dtype:
+            if coef.dtype != dtype and coef.dtype.newbyteorder("=") != numpy.dtype(dtype).newbyteorder("="):
+                # (byte order is storage, not type: '>f8' and float64 hold the same numbers)
                 out.append(f"coefficient {i} has dtype {coef.dtype}, polynomial dtype {dtype}")
                 break
     # raw structured view
@@ -72,7 +73,8 @@ def problems(poly):
             if list(fields) != keys:
                 out.append("raw field names differ from keys")
             for field in fields:
-                if raw.dtype[field] != dtype:
+                if raw.dtype[field] != dtype and \
+                        raw.dtype[field].newbyteorder("=") != numpy.dtype(dtype).newbyteorder("="):
                     out.append(f"field {field!r} has dtype {raw.dtype[field]}, polynomial {dtype}")
                     break
     except Exception as err:  # pylint: disable=broad-except
